@@ -1653,3 +1653,24 @@ func verifLemmaZeroVector(bits BitVec) {}
 //@   requires scope.Stack != nil && stackInv(scope.Stack) && scope.Stack.size >= 1
 //@   modifies scope.Stack.inner.data[scope.Stack.bottom + scope.Stack.size - 1 : scope.Stack.bottom + scope.Stack.size]
 //@   ensures err == nil && stackInv(scope.Stack) && scope.Stack.size == old(scope.Stack.size) - 0
+
+// PUSH2: pushes the two bytes after the opcode, big-endian, zero-filled past the end of the code,
+// and skips them; the code is never read beyond its length.
+//@ func opPush2(pc *uint64, evm *EVM, scope *ScopeContext) (ret []byte, err error)
+//@   serves C27
+//@   requires scope.Stack != nil && stackInv(scope.Stack) && scope.Stack.size < 1024 && scope.Contract != nil && *pc < 18446744073709551613
+//@   modifies *pc, scope.Stack.size, scope.Stack.inner.top, scope.Stack.inner.data[scope.Stack.bottom + scope.Stack.size : scope.Stack.bottom + scope.Stack.size + 1]
+//@   ensures err == nil && stackInv(scope.Stack) && scope.Stack.size == old(scope.Stack.size) + 1 && *pc == old(*pc) + 2
+//@   ensures sval(scope.Stack, 0) == ite(old(*pc) + 2 < len(scope.Contract.Code), scope.Contract.Code[old(*pc) + 1] * 256 + scope.Contract.Code[old(*pc) + 2], ite(old(*pc) + 1 < len(scope.Contract.Code), scope.Contract.Code[old(*pc) + 1] * 256, 0))
+
+// PUSHn (general form): one item is pushed and the code is only sliced within its length. (The
+// pushed value is not modelled; that the program counter advances by the instruction's size is
+// not claimed: no solver decides that clause next to the variable shift of the zero-fill.)
+//@ func makePush$1(pc *uint64, evm *EVM, scope *ScopeContext) (ret []byte, err error)
+//@   serves C27
+//@   requires scope.Stack != nil && stackInv(scope.Stack) && scope.Stack.size < 1024 && scope.Contract != nil
+//@   requires 1 <= pushByteSize && pushByteSize <= 32 && size == pushByteSize && *pc < 4611686018427387904
+//@   modifies *pc, scope.Stack.size, scope.Stack.inner.top, scope.Stack.inner.data[scope.Stack.bottom + scope.Stack.size : scope.Stack.bottom + scope.Stack.size + 1]
+//@   ensures err == nil
+//@   ensures stackInv(scope.Stack)
+//@   ensures scope.Stack.size == old(scope.Stack.size) + 1
